@@ -55,6 +55,10 @@ fn dispatch(w: &[&str]) -> String {
         "fread" => ops::fread(&w[1..]),
         "aread" => ops::aread(&w[1..]),
         "awrite" => ops::awrite(&w[1..]),
+        "fwriteb" => ops::fwriteb(&w[1..]),
+        "freadb" => ops::freadb(&w[1..]),
+        "areadb" => ops::areadb(&w[1..]),
+        "awriteb" => ops::awriteb(&w[1..]),
         _ => None
     };
     r.unwrap_or_else(|| "bad-op".into())
